@@ -64,6 +64,9 @@ class Sl:
         return "%s%s%s" % (self.kind, ("/%d" % self.mask) if self.kind == "S" else "", self.vals)
 
 
+IC_TYPES = ["size_t", "size_t", "int", "long"]
+
+
 def ic(v, ty="size_t"):
     if v >= (1 << 31):
         ty = "size_t"
@@ -90,9 +93,12 @@ def make_slice(rng, kind, E, T, t, boundary, Sk=1, rich=False):
             if rng.random() < 0.2:
                 e = b
         if kind == "PC":
-            return Sl("PC", "std::pair<%s, %s>" % (ic(b), ic(e)), [b, e])
-        el = T if (rng.random() < 0.6 or E > 2000000000) else "int"
-        return Sl(kind, ("std::pair<%s, %s>" if kind == "P" else "std::tuple<%s, %s>") % (el, el), [b, e])
+            # the two constants get independently chosen value types (a rule keyed on one shared type loses the static extent)
+            return Sl("PC", rng.choice(["std::pair<%s, %s>", "std::tuple<%s, %s>"]) % (ic(b, rng.choice(IC_TYPES)), ic(e, rng.choice(IC_TYPES))), [b, e])
+        # the two run-time components get independently chosen types (index type or int)
+        el1 = T if (rng.random() < 0.6 or E > 2000000000) else "int"
+        el2 = T if (rng.random() < 0.6 or E > 2000000000) else "int"
+        return Sl(kind, ("std::pair<%s, %s>" if kind == "P" else "std::tuple<%s, %s>") % (el1, el2), [b, e])
     if kind == "F":
         return Sl("F", "", [])
     # strided_slice{offset, extent, stride}
@@ -257,7 +263,7 @@ def gen(rng, tier, props=("C04",)):
                 if ek == "T":
                     return Sl("T", "std::tuple<%s, %s>" % (T, T), [E, E])
                 if ek == "PC":
-                    return Sl("PC", "std::pair<%s, %s>" % (ic(E), ic(E)), [E, E])
+                    return Sl("PC", "std::pair<%s, %s>" % (ic(E, rng.choice(IC_TYPES)), ic(E, rng.choice(IC_TYPES))), [E, E])
                 if ek == "Sd":
                     return Sl("S", "%s, %s, %s" % (T, T, T), [E, 0, 1], mask=0)
                 return Sl("S", "%s, %s, %s" % (ic(E), ic(0), ic(1)), [E, 0, 1], mask=7)
